@@ -113,6 +113,7 @@ type World struct {
 	HeadersEv      int
 	hdrHook        func(name string, h map[string][]string, req *types.HttpContext)
 	MsgHook        func(sr *SessRec, p Pkt) // called for every message event, in the listener, outside w.mu
+	CbHook         func(sm *SentMsg)        // called at the end of every send callback, outside w.mu
 }
 
 func (w *World) Failf(format string, a ...any) {
@@ -320,7 +321,11 @@ func (w *World) AppSend(sr *SessRec, p Pkt, opts *packet.Options, withCb bool, s
 			ev := Ev{At: w.now(), Sid: sr.Sid, Name: "callback", State: sr.Sock.ReadyState(), Pkts: []PRef{{Type: "message", Tag: tag}}}
 			sr.Events = append(sr.Events, ev)
 			w.Log = append(w.Log, ev)
+			hook := w.CbHook
 			w.mu.Unlock()
+			if hook != nil {
+				hook(sm)
+			}
 		}
 	}
 	sr.Sock.Send(data, opts, cb)
